@@ -575,6 +575,13 @@ class Extractor:
         if kind in ('enum', 'struct'):
             _inner_attr_edits(src, segs, kwi, end, self.counts)
         spec = spec or {}
+        if spec.get('vis'):
+            m = kwi
+            while m > start and toks[m - 1].kind == 'ident' and toks[m - 1].text in MODIFIERS:
+                m -= 1
+            if toks[m].text != 'pub' and not (m > start and toks[m - 1].text == ')'):
+                segs.insert(toks[m].start, spec['vis'] + ' ', name + '/vis', order=9)
+                self.counts['widen-visibility'] = self.counts.get('widen-visibility', 0) + 1
         if kind == 'fn':
             FnSplicer(src, segs, rel + '::' + '::'.join(p.split(' ', 1)[1] for p in path), self.counts).splice(start, kwi, end, spec)
         elif kind == 'trait' and spec.get('methods'):
